@@ -143,8 +143,17 @@ LOOP_MODES = [("no_grad", 300), ("plain", 300), ("concat_param", 300), ("concat_
               ("ctx_exception_inside", 200), ("ctx_shared_reentered_exception", 200)]
 
 
+WIDE_VARIANTS = ["chain_params", "sum_leaves", "concat_leaves", "shared_params"]
+
+
+def cmp_ok(r):
+    """tensor comparisons + hash calls during backward stay within twice the linear bound (unchanged code: exactly the bound:
+    one membership test per operand slot, one insertion per reached tensor)"""
+    return r.get("tensor_eq_calls", 0) + r.get("tensor_hash_calls", 0) <= 2 * r.get("bound", 0) + 8
+
+
 def chain_ok(r):
-    good = (r.get("ok") and r["grad_exact"] and r["calls"] == r["closures"] and r["max_calls"] == 1 and r["zero_calls"] <= r["bound"])
+    good = (r.get("ok") and r["grad_exact"] and r["calls"] == r["closures"] and r["max_calls"] == 1 and r["zero_calls"] <= r["bound"] and cmp_ok(r))
     if good and "calls_after_second_call" in r:
         good = r["calls_after_second_call"] == [2] and r["grad_after_second_call"] == 2 * r["grad"][0]
     return bool(good)
@@ -157,10 +166,18 @@ def run(ctx):
     for n in sizes:
         for v in CHAIN_VARIANTS:
             P.add(("chain", v, n), ["chain", n, v], 120)
+    for v in CHAIN_VARIANTS:
+        P.add(("chain", v, "fail"), ["chain", 1000, v, "fail_first"], 120)
     depths = [20, 60, 200]
     for d in depths:
         for v in DIAMOND_VARIANTS:
             P.add(("diamond", v, d), ["diamond", d, v], 30)
+    for v in DIAMOND_VARIANTS:
+        P.add(("diamond", v, "fail"), ["diamond", 60, v, "fail_first"], 30)
+    wsizes = [1000, 10000]
+    for n in wsizes:
+        for v in WIDE_VARIANTS:
+            P.add(("wide", v, n), ["wide", n, v], 120)
     for mode, it in LOOP_MODES:
         P.add(("loop", mode), ["untracked", it, mode], 60)
     P.add(("loop", "tracked"), ["untracked", 50, "tracked"], 60)
@@ -196,7 +213,7 @@ def run(ctx):
     # ---- deep chains, the chain carried by every operand position -----------------------------------
     rows, mism = [], []
     for v in CHAIN_VARIANTS:
-        for n in sizes:
+        for n in sizes + ["fail"]:
             r = R[("chain", v, n)]
             rows.append(r)
             if not chain_ok(r):
@@ -204,8 +221,10 @@ def run(ctx):
     for r in sorted(mism, key=lambda r: (r.get("n") or (r.get("args") or [0, 0])[1]))[:2]:
         n = r.get("n") or r["args"][1]
         v = r.get("variant") or r["args"][2]
-        ctx.witness(SITE_DEEP, "deep-chain", {"chain_length": int(n), "variant": v,
-                    "program": "x = Tensor(requires_grad=True); y = x; repeat %s times one step of variant %r (lib/engine_probe.py: chain); y.backward()" % (n, v)},
+        ff = bool(r.get("failed_calls_first")) or (len(r.get("args") or []) > 3)
+        ctx.witness(SITE_DEEP, "deep-chain", {"chain_length": int(n), "variant": v, "fail_first": ff,
+                    "program": "x = Tensor(requires_grad=True); y = x; repeat %s times one step of variant %r (lib/engine_probe.py: chain); %sy.backward()"
+                               % (n, v, "twice: try y.backward(<wrong-shaped gradient>) except RuntimeError: pass; " if ff else "")},
                     "backward completes, each closure is called exactly once, zero_() calls <= sum(1+#operands), x.grad exact", r)
     ctx.tie("deep chains 10^3 / 10^4 / 5*10^4, chain carried by every operand position", "correspondence", len(rows), len(rows), mism,
             note="variants: %s; run in subprocesses; closure count = number of has_fn nodes (theorem calls_linear), zero_() calls <= theorem "
@@ -214,22 +233,42 @@ def run(ctx):
     # ---- reconvergent graphs: work must be linear in the graph, not in the number of paths -------------
     drows, mism = [], []
     for v in DIAMOND_VARIANTS:
-        for d in depths:
+        for d in depths + ["fail"]:
             r = R[("diamond", v, d)]
             drows.append(r)
             good = (r.get("ok") and r["grad_exact"] and r["calls"] == r["closures"] and r["max_calls"] == 1
-                    and r["zero_calls"] <= r["bound"] and r["calls"] <= r["bound"])
+                    and r["zero_calls"] <= r["bound"] and r["calls"] <= r["bound"] and cmp_ok(r))
             if not good:
                 mism.append(r)
     for r in sorted(mism, key=lambda r: (r.get("depth") or (r.get("args") or [0, 0])[1]))[:2]:
         d = r.get("depth") or r["args"][1]
         v = r.get("variant") or r["args"][2]
-        ctx.witness(SITE_DEEP, "reconvergent-graph", {"diamond_depth": int(d), "variant": v,
+        ctx.witness(SITE_DEEP, "reconvergent-graph", {"diamond_depth": int(d), "variant": v, "fail_first": bool(r.get("failed_calls_first")) or (len(r.get("args") or []) > 3),
                     "program": "x = Tensor([1.], requires_grad=True); h = x; repeat %s times: h = h + h*w; h.backward()   (%s ops, 2^%s paths)" % (d, 2 * int(d), d)},
                     "each recorded operation is visited once: closure calls = ops, Tensor.zero_ calls <= sum over reached tensors of (1 + #operands), finishes in milliseconds",
                     r)
     ctx.tie("stacked diamonds of depth 20 / 60 / 200 (2^depth paths): linear work", "correspondence", len(drows), len(drows), mism,
             note="closure calls, Tensor.zero_ calls counted from outside against the linear bound; wall-clock cap 30 s; " + json.dumps(drows[:3])[:500])
+
+    # ---- graphs wide in distinct leaves: comparisons / hash calls stay linear --------------------------------------
+    wrows, mism = [], []
+    for v in WIDE_VARIANTS:
+        for n in wsizes:
+            r = R[("wide", v, n)]
+            wrows.append(r)
+            good = (r.get("ok") and r["grad_exact"] and r["calls"] == r["closures"] and r["max_calls"] == 1 and r["zero_calls"] <= r["bound"] and cmp_ok(r))
+            if not good:
+                mism.append(r)
+    for r in sorted(mism, key=lambda r: (r.get("n") or (r.get("args") or [0, 0])[1]))[:2]:
+        n = r.get("n") or r["args"][1]
+        v = r.get("variant") or r["args"][2]
+        ctx.witness(SITE_DEEP, "wide-graph", {"wide_leaves": int(n), "variant": v,
+                    "program": "%s distinct requires-grad leaves p_i combined by variant %r (lib/engine_probe.py: wide); root.backward()" % (n, v)},
+                    "work linear in nodes + edges: tensor comparisons + hash calls during backward <= 2 * sum over reached tensors of (1 + #operands), "
+                    "each closure once, every p_i.grad exact", r)
+    ctx.tie("graphs wide in distinct leaves (10^3 / 10^4 parameters): comparisons and hash calls stay linear", "correspondence", len(wrows), len(wrows), mism,
+            note="Tensor.__eq__ / __hash__ wrapped from outside and counted during backward against the bound of theorem ordering_loop_linear "
+                 "(unchanged code: exactly one hash per operand slot + one per reached tensor, no comparisons); " + json.dumps(wrows[:2])[:500])
 
     # ---- untracked computations keep nothing ----------------------------------------------------------------
     mism, live = [], []
@@ -268,13 +307,17 @@ def replay(ctx, data):
         print(json.dumps(data.get("broken"), indent=1)); return 1
     inp = data["input"]
     if "chain_length" in inp:
-        r = probe(["chain", inp["chain_length"], inp.get("variant", "tensor_scalar_mix")])
+        r = probe(["chain", inp["chain_length"], inp.get("variant", "tensor_scalar_mix")] + (["fail_first"] if inp.get("fail_first") else []))
         print(r)
         return 0 if chain_ok(r) else 1
     if "diamond_depth" in inp:
-        r = probe(["diamond", inp["diamond_depth"], inp.get("variant", "const_w")], timeout=30)
+        r = probe(["diamond", inp["diamond_depth"], inp.get("variant", "const_w")] + (["fail_first"] if inp.get("fail_first") else []), timeout=30)
         print(r)
         return 0 if (r.get("ok") and r.get("grad_exact") and r.get("max_calls") == 1 and r["zero_calls"] <= r["bound"]) else 1
+    if "wide_leaves" in inp:
+        r = probe(["wide", inp["wide_leaves"], inp["variant"]])
+        print(r)
+        return 0 if (r.get("ok") and r.get("grad_exact") and cmp_ok(r)) else 1
     if "iterations" in inp:
         r = probe(["untracked", inp["iterations"], inp["mode"]])
         print(r)
